@@ -685,23 +685,22 @@ func enumerate(tier string, emit func(string)) {
 	// family R: one class redefined at any later point of the history
 	if thorough {
 		emitR(emit, 2, 1, alphaSmall, true)
-		emitR(emit, 3, 2, alphaSmall, true)
+		emitR(emit, 3, 2, alphaTiny, true)
+		emitR(emit, 3, 2, []string{"-.-", "f.-", "k.k"}, false)
 	} else {
 		emitR(emit, 2, 1, alphaTiny, true)
 		emitR(emit, 3, 2, alphaTwo, true)
 	}
 	// 4 classes: every DAG, every permutation
+	emitP(emit, 4, 3, []string{"f.-"})
 	if thorough {
-		emitP(emit, 4, 3, []string{"f.-"})
-		emitP(emit, 4, 3, alphaSmall)
+		emitP(emit, 4, 3, alphaTiny)
 		emitR(emit, 4, 2, []string{"f.-"}, false)
 		for _, g := range shapes5 {
-			product(alphaTiny, 5, func(sl []string) {
+			product(alphaTwo, 5, func(sl []string) {
 				emit(mkCase(g, sl).String())
 			})
 		}
-	} else {
-		emitP(emit, 4, 3, []string{"f.-"})
 	}
 }
 
